@@ -414,7 +414,7 @@ Init ==
     /\ cands = [s \in SubIds |-> {<<0, FALSE>>}]
     /\ armed = [s \in SubIds |-> FALSE] /\ owed = {}
     /\ ret = RNil /\ out = <<>>
-    /\ hist = <<H("New", "v", 0, cap, 0, <<>>, 0)>>
+    /\ hist = <<H("New", "v", 0, cap, 0, <<>>, 0)>>     \* i = capacity, vs = initial contents, k = subscribers from the start
 
 Wheres == {"v", "t"}
 Idx == 0 .. (MaxLen + 1)
